@@ -194,9 +194,10 @@ class Verdict:
         os.makedirs(EVID, exist_ok=True)
         rc = 0
         lines = []
-        for fid, (c, ex) in sorted(self.known_hit.items()):
-            f = [k for k in self.known if k["id"] == fid][0]
-            lines.append("KNOWN-FINDING: property=%s %s [%s, re-observed %d times]" % (self.prop, f["what"], fid, c))
+        # one line for every finding listed for this property, re-observed by this run's sample or not
+        for f in sorted((k for k in self.known if k.get("property") == self.prop), key=lambda k: k["id"]):
+            c = self.known_hit.get(f["id"], (0, None))[0]
+            lines.append("KNOWN-FINDING: property=%s %s [%s, re-observed %d times in this run]" % (self.prop, f["what"], f["id"], c))
         if self.unlisted:
             rc = 1
             path = os.path.join(REPLAYS, "%s-%s-%d.json" % (self.prop, self.tier, self.seed))
